@@ -85,13 +85,13 @@ def sortSet (l : List Key) : List Key := l.foldr insertSet []
 def trigBytes (ts : List Key) : Bytes := ts.flatMap fun t => t ++ [0]
 
 /-- the `strlen` loops of `load_triggers` (server) and `tcp_cache::fetch` (client) over a region:
-`cur` is the name being scanned; a name for which `reject length` holds aborts with `none`.
-A last name without terminator ends at the implicit NUL of `std::string::c_str()`. -/
+`cur` is the name being scanned, **reversed** (linear time); a name for which `reject length` holds
+aborts with `none`.  A last name without terminator ends at the implicit NUL of `std::string::c_str()`. -/
 def loadAux (reject : Nat → Bool) : Bytes → Bytes → Option (List Key)
-  | [], cur => if cur.isEmpty then some [] else if reject cur.length then none else some [cur]
+  | [], cur => if cur.isEmpty then some [] else if reject cur.length then none else some [cur.reverse]
   | c :: r, cur =>
-    if c = 0 then (if reject cur.length then none else (loadAux reject r []).map (cur :: ·))
-    else loadAux reject r (cur ++ [c])
+    if c = 0 then (if reject cur.length then none else (loadAux reject r []).map (cur.reverse :: ·))
+    else loadAux reject r (c :: cur)
 
 /-- `session::load_triggers(triggers,start,len)`; `none` = `return false` -/
 def srvLoadTriggers (region : Bytes) (len : Nat) : Option (List Key) :=
